@@ -55,7 +55,17 @@ func runC17(c *core.Ctx) {
 					return true
 				}
 				o.At(fn.Site(cl, "node literal "+joinSet(keys)))
-				root := strings.Contains(fn.Key, "writeRoot")
+				// root or not, by what happens to the reference the node is
+				// written under: returned to the caller (the tree root), or
+				// recorded in a node descriptor for the level above
+				root, known := nodeRole(fn, cl)
+				if !known {
+					root, known = strings.Contains(fn.Key, "writeRoot"), strings.Contains(fn.Key, "writeRoot") || strings.Contains(fn.Key, "completePendingLeaf") || strings.Contains(fn.Key, "mergeNodes")
+				}
+				if !known {
+					o.Unrec("%s: cannot tell whether the node written here is the root", c.Prog.Pos(cl.Pos()))
+					return true
+				}
 				if root {
 					nRoots++
 					if keys["Limits"] {
@@ -579,4 +589,56 @@ func ruleMethodsPure(c *core.Ctx, rule, pk string, floor int, match func(fn *cor
 	}
 	c.Floor(rule, floor)
 	_ = n
+}
+
+// nodeRole decides whether the dictionary literal cl, written with
+// Put(ref, node), is a tree root (ref is returned by the function) or an
+// inner node (ref is recorded as the ref field of a node descriptor).
+func nodeRole(fn *core.Func, cl *ast.CompositeLit) (root, known bool) {
+	info := fn.Info()
+	// the variable holding the literal
+	var nodeObj types.Object
+	ast.Inspect(fn.Decl.Body, func(n ast.Node) bool {
+		if as, ok := n.(*ast.AssignStmt); ok && len(as.Lhs) == len(as.Rhs) {
+			for i, r := range as.Rhs {
+				if ast.Unparen(r) == ast.Expr(cl) {
+					nodeObj = core.ObjOf(info, as.Lhs[i])
+				}
+			}
+		}
+		return true
+	})
+	var refObj types.Object
+	ast.Inspect(fn.Decl.Body, func(n ast.Node) bool {
+		call, ok := n.(*ast.CallExpr)
+		if !ok || len(call.Args) != 2 || !strings.HasSuffix(core.CalleeKey(info, call), ".Put") {
+			return true
+		}
+		a1 := ast.Unparen(call.Args[1])
+		if a1 == ast.Expr(cl) || (nodeObj != nil && core.ObjOf(info, a1) == nodeObj) {
+			refObj = core.ObjOf(info, call.Args[0])
+		}
+		return true
+	})
+	if refObj == nil {
+		return false, false
+	}
+	returned, recorded := false, false
+	ast.Inspect(fn.Decl.Body, func(n ast.Node) bool {
+		switch x := n.(type) {
+		case *ast.ReturnStmt:
+			if len(x.Results) >= 1 && core.ObjOf(info, x.Results[0]) == refObj {
+				returned = true
+			}
+		case *ast.KeyValueExpr:
+			if id, ok := x.Key.(*ast.Ident); ok && id.Name == "ref" && core.ObjOf(info, x.Value) == refObj {
+				recorded = true
+			}
+		}
+		return true
+	})
+	if returned == recorded {
+		return false, false
+	}
+	return returned, true
 }
